@@ -4,7 +4,7 @@
    reader); every table, buffer size and `m_bufferRemaining < k` guard comes from GenSer.v, which
    translator/gen_ser.py regenerates from /repo on every run. *)
 From Coq Require Import NArith List Bool.
-Require Import XV.SerDefs XV.XmlParseDefs XV.SerUtfModel XV.SerUtfModel2.
+Require Import XV.SerDefs XV.XmlParseDefs XV.SerUtfModel XV.SerUtfModel2 XV.SerEscModel.
 Import ListNotations.
 Local Open Scope N_scope.
 
@@ -97,3 +97,101 @@ Print Assumptions utf8_roundtrip_lone_low_refuted.
 Theorem utf8_lone_high_is_an_error : forall c, is_high c = true -> payload (u8_str [c]) = Thrown err_surrogate.
 Proof. exact utf8_lone_high_throws. Qed.
 Print Assumptions utf8_lone_high_is_an_error.
+
+(* ---- escaping: what a conforming parser reads back ------------------------------------------------- *)
+(* wf_text v11 s: s is a sequence of Chars of that XML version with paired surrogates.  The reader
+   (XmlParseDefs.v) is written from the XML recommendations: end-of-line normalisation,
+   references, CDATA sections, attribute-value normalisation, legality of literal characters.
+   The special-character tables of both versions enter through exhaustive sweeps over GenSer.v. *)
+
+(* content_roundtrip: text nodes, XML 1.0 and 1.1 tables, UTF-16 writer (nothing unrepresentable) *)
+Theorem content_roundtrip : forall v11 s, wf_text v11 s = true ->
+  exists bs, payload (write_content fam_utf16 v11 s) = Ok bs /\ parse_content v11 bs = Some s.
+Proof. exact SerEscModel.content_roundtrip. Qed.
+Print Assumptions content_roundtrip.
+
+(* attr_roundtrip: TAB, LF, CR are written as references and so survive normalisation *)
+Theorem attr_roundtrip : forall v11 s, wf_text v11 s = true ->
+  exists bs, payload (write_attr_string fam_utf16 v11 s) = Ok bs /\ parse_attr v11 bs = Some s.
+Proof. exact SerEscModel.attr_roundtrip. Qed.
+Print Assumptions attr_roundtrip.
+
+(* the same through the other-encoding writer, for EVERY representability predicate that accepts
+   ASCII: unrepresentable characters become decimal character references *)
+Theorem content_roundtrip_any_encoding : forall rep, (forall c, c < 128 -> rep c = true) ->
+  forall v11 s, wf_text v11 s = true -> small s = true ->
+  exists bs, payload (write_content (fam_other rep) v11 s) = Ok bs /\ parse_content v11 bs = Some s.
+Proof. exact content_roundtrip_other. Qed.
+Print Assumptions content_roundtrip_any_encoding.
+
+Theorem attr_roundtrip_any_encoding : forall rep, (forall c, c < 128 -> rep c = true) ->
+  forall v11 s, wf_text v11 s = true -> small s = true ->
+  exists bs, payload (write_attr_string (fam_other rep) v11 s) = Ok bs /\ parse_attr v11 bs = Some s.
+Proof. exact attr_roundtrip_other. Qed.
+Print Assumptions attr_roundtrip_any_encoding.
+
+Example roundtrip_hypotheses_satisfiable :
+  wf_text false [60; 38; 62; 34; 9; 10; 13; 233; 8364; 55357; 56832; 93; 93; 62; 133; 8232] = true /\
+  wf_text true [1; 60; 133; 8232; 159; 55357; 56832] = true /\
+  small [60; 8364; 55357; 56832] = true /\ (forall c, c < 128 -> rep_latin1 c = true).
+Proof. repeat split; try (vm_compute; reflexivity). exact rep_latin1_low. Qed.
+Print Assumptions roundtrip_hypotheses_satisfiable.
+
+(* forbidden_char_fails / its converse at table level: under XML 1.0 the characters that raise the
+   error are exactly the non-Chars below 0x80; the 1.1 table forbids nothing (controls are written as
+   references) *)
+Theorem forbidden_char_fails : forall v11 s, (exists c, In c s /\ p_forbidden v11 c = true) ->
+  payload (write_content fam_utf16 v11 s) = Thrown err_forbidden.
+Proof. exact SerEscModel.forbidden_char_fails. Qed.
+Print Assumptions forbidden_char_fails.
+
+Theorem forbidden_iff_not_char_1_0 : forall c, c < 128 -> p_forbidden false c = negb (xml_char false c).
+Proof. exact forbidden_iff_not_char_1_0'. Qed.
+Print Assumptions forbidden_iff_not_char_1_0.
+
+Theorem no_forbidden_1_1 : forall c, p_forbidden true c = false.
+Proof. exact SerEscModel.no_forbidden_1_1. Qed.
+Print Assumptions no_forbidden_1_1.
+
+(* cdata_roundtrip.  FULL statement (kept visible):
+     forall v11 s, wf_text v11 s = true -> s <> [] ->
+       exists bs, payload (write_cdata fam_utf16 v11 s) = Ok bs /\ parse_content v11 bs = Some s
+   is FALSE of the model and of the library (finding K-new-1): a CR is written literally inside the
+   CDATA section and read back as LF; under 1.1 also U+0085 and U+2028, and a 1.1 control character
+   raises an exception (K-new-2). *)
+Theorem cdata_roundtrip_refuted :
+  ~ (forall v11 s, wf_text v11 s = true -> s <> [] ->
+       exists bs, payload (write_cdata fam_utf16 v11 s) = Ok bs /\ parse_content v11 bs = Some s).
+Proof. exact cdata_roundtrip_false. Qed.
+Print Assumptions cdata_roundtrip_refuted.
+
+Theorem cdata_roundtrip_cr_witness : forall v11,
+  wf_text v11 [13] = true /\
+  payload (write_cdata fam_utf16 v11 [13]) = Ok (s_cdata_open ++ [13] ++ s_cdata_close) /\
+  parse_content v11 (s_cdata_open ++ [13] ++ s_cdata_close) = Some [10].
+Proof. exact SerEscModel.cdata_roundtrip_refuted. Qed.
+Print Assumptions cdata_roundtrip_cr_witness.
+
+(* with the exact guard (no CR; 1.1: no NEL, LSEP, control characters) every string round-trips,
+   including every placement of "]]>" (split by the look-ahead taken from the source) *)
+Theorem cdata_roundtrip_partial : forall v11 s, wf_text v11 s = true ->
+  ~ In 13 s ->
+  (v11 = true -> ~ In 133 s /\ ~ In 8232 s /\ forall c, In c s -> p_crforbidden true c = false) ->
+  exists bs, payload (write_cdata fam_utf16 v11 s) = Ok bs /\ parse_content v11 bs = Some s.
+Proof. exact SerEscModel.cdata_roundtrip_partial. Qed.
+Print Assumptions cdata_roundtrip_partial.
+
+Example cdata_roundtrip_instance :
+  payload (write_cdata fam_utf16 false [93; 93; 62; 93; 93; 93; 62])
+  = Ok (s_cdata_open ++ [93; 93] ++ s_cdata_close ++ s_cdata_open ++ [62; 93] ++ [93; 93] ++ s_cdata_close
+        ++ s_cdata_open ++ [62] ++ s_cdata_close).
+Proof. vm_compute. reflexivity. Qed.
+Print Assumptions cdata_roundtrip_instance.
+
+(* comment_roundtrip is FALSE for encodings with unrepresentable characters (known finding K4):
+   the reference is literal text inside a comment *)
+Theorem comment_roundtrip_refuted :
+  payload (write_comment (fam_other rep_ascii) false [8364]) =
+  Ok ([60; 33; 45; 45] ++ [38; 35; 56; 51; 54; 52; 59] ++ [45; 45; 62]).
+Proof. exact comment_charref_refuted. Qed.
+Print Assumptions comment_roundtrip_refuted.
